@@ -417,4 +417,22 @@ CHECKS = {
         "components": {"real": "resp.go decoder (readNextMessage, streamTo) called in-package; all of package rueidis in the system part", "stubs": STUBS},
         "assumptions": ["'far beyond the bytes received' is taken as more than 64 x received + 64 MiB", "the 'all byte sequences' quantifier is sampled input generation around well-formed streams"],
     },
+    "C47": {
+        "level": "fault_enumeration",
+        "rule": ("plans: the product of credentials (none, password, user+password, dynamic through AuthCredentialsFn), client name, database, tracking options "
+                 "(OPTIN, OPTIN+NOLOOP, OPTOUT, BCAST, BCAST+PREFIX, cache disabled), NO-TOUCH, NO-EVICT, library info (default, custom, disabled), AlwaysRESP2 and "
+                 "servers without HELLO, on a model that enforces authentication; 2-4 tasks open the pipelined wire(s) and pooled connections; on the first one or two "
+                 "connections one setup command (enumerated part: each of the setup steps 0..15; random part: a seeded one) is answered with an error or the connection is "
+                 "dropped at that step; oracle: the session state the model recorded with the first user command of every connection equals the options (user, protocol, "
+                 "name, database, tracking mode/prefixes/NOLOOP, NO-TOUCH, NO-EVICT, library info), RESP2 only when forced or HELLO is unknown, and no user command is sent "
+                 "on a connection whose last attempt of a non-tolerated setup command failed; non-trivial = at least one connection served a user command; "
+                 "distinct = distinct event-log hash"),
+        "parts": [
+            {"module": "rueidis", "scenario": "setup", "quick": 6000, "thorough": 400000},
+            {"module": "rueidis", "scenario": "setup", "variant": "enum", "quick": 4096, "thorough": 131072},
+        ],
+        "expected_probes": ["setup-step-failed", "server-without-hello"],
+        "components": {"real": REAL, "stubs": STUBS},
+        "assumptions": ["single-node front-end; ReplicaOnly/READONLY and the sentinel options are not exercised", "credential refresh (RefreshAfter) is not exercised"],
+    },
 }
